@@ -164,6 +164,24 @@ def oracles(full=False, log=print):
     return bad
 
 
+def machinery(log=print):
+    """Known-finding matching: class + sig subset, nothing else is suppressed."""
+    from .runner import match_known
+
+    known = [{"id": "K1", "property": "C02", "class": "value:earley", "sig": {"mode": "log", "empty": True}, "what": "x"}]
+    v_same = {"class": "value:earley", "sig": {"mode": "log", "empty": True, "phase": "query"}}
+    v_other_input = {"class": "value:earley", "sig": {"mode": "log", "empty": False}}
+    v_other_class = {"class": "value:icky", "sig": {"mode": "log", "empty": True}}
+    bad = 0
+    bad += match_known("C02", v_same, known) is None
+    bad += match_known("C02", v_other_input, known) is not None
+    bad += match_known("C02", v_other_class, known) is not None
+    bad += match_known("C06", v_same, known) is not None
+    log(f"machinery: known-finding matching (same input matched, different input / class / property reported): "
+        f"{'ok' if not bad else 'FAILED'}")
+    return bad
+
+
 def _apply_and_check(name, patch, checks, expect_violation, runs, log):
     wt = os.path.expanduser(f"~/scratch-selftest-{name}")
     subprocess.run(["git", "-C", REPO, "worktree", "remove", "--force", wt], capture_output=True)
@@ -230,6 +248,7 @@ def main(a):
     bad = 0
     parts = [p for p in ("determinism", "oracles", "sensitivity") if f"--{p}" in sys.argv] or ["determinism", "oracles", "sensitivity"]
     if "oracles" in parts:
+        bad += machinery()
         bad += oracles(full)
     if "determinism" in parts:
         bad += determinism(full)
